@@ -18,6 +18,7 @@ import (
 	"sort"
 	"strings"
 	"sync"
+	"syscall"
 	"time"
 
 	"verifmc/core"
@@ -56,6 +57,9 @@ var scenarios = []scenario{
 	{Name: "confirms||blockat", Prefix: []string{"ins a1"}, Threads: [][]string{{"cf a1 1"}, {"blockat 1"}}, BoundQuick: 2, BoundThor: 3, ShardsQuick: 2, ShardsThor: 3},
 	{Name: "confirms||confirms-same-signer", Prefix: []string{"ins a1", "ins b1"}, Threads: [][]string{{"cf b1 0"}, {"cf b1 f0"}}, BoundQuick: 2, BoundThor: 4, ShardsQuick: 1, ShardsThor: 1},
 	{Name: "batch-task||confirms-for-stable-ancestor", Prefix: []string{"ins a1", "ins b1", "ins b2", "cf b2 0,1"}, Threads: [][]string{{"cf b1 0"}}, LastPrefixBG: true, BoundQuick: 2, BoundThor: 4, ShardsQuick: 2, ShardsThor: 2},
+	// a confirm package makes a block of ANOTHER fork stable (the current fork is cut, the head switches, the cut fork's
+	// transactions go back to the pool) while a block that carries a transaction extends the current fork
+	{Name: "insert||confirms-of-other-fork", Prefix: []string{"ins a1", "ins b1"}, Threads: [][]string{{"ins a2t"}, {"cf b1 0,2"}}, BoundQuick: 2, BoundThor: 3, ShardsQuick: 3, ShardsThor: 6},
 	{Name: "insert||confirms||getconfirms", Prefix: []string{"ins a1"}, Threads: [][]string{{"ins a2"}, {"cf a1 1"}, {"confirms a1"}}, BoundQuick: 1, BoundThor: 2, ShardsQuick: 3, ShardsThor: 8},
 }
 
@@ -197,6 +201,7 @@ type scStats struct {
 	Truncated      bool            `json:"cut_by_deadline"`
 	Shards         int             `json:"shards"`
 	WallS          float64         `json:"wall_s_of_the_slowest_shard"`
+	CPUS           float64         `json:"cpu_s"` // user+system time of the worker process while it ran this scenario's units (sequential reference, learning pass and exploration; summed over the shards)
 	FinalStates    map[string]bool `json:"-"`
 	DistinctFinals int             `json:"distinct_final_partial_orders"`
 }
@@ -255,7 +260,8 @@ func raceFP(rc sched.XRace) (fp, what string) {
 func (sc *scenario) explore(r *core.Result, shard, nshards int, seeds []string) *scStats {
 	st := &scStats{Outcomes: map[string]int{}, Threads: map[string]int{}, Bound: sc.bound(), Shards: nshards, FinalStates: map[string]bool{}, BoundDone: -1}
 	t0 := time.Now()
-	defer func() { st.WallS = time.Since(t0).Seconds() }()
+	c0 := cpuSeconds()
+	defer func() { st.WallS = time.Since(t0).Seconds(); st.CPUS = cpuSeconds() - c0 }()
 	seq := sc.sequential()
 	st.SeqOrders, st.SeqOutcomes = seq.Orders, len(seq.Outcomes)
 	if shard == 0 {
@@ -398,6 +404,15 @@ func (sc *scenario) explore(r *core.Result, shard, nshards int, seeds []string) 
 	}
 	st.DistinctFinals = len(st.FinalStates)
 	return st
+}
+
+// cpuSeconds is the user+system CPU time of this process so far (a worker runs its units one after the other).
+func cpuSeconds() float64 {
+	var ru syscall.Rusage
+	if syscall.Getrusage(syscall.RUSAGE_SELF, &ru) != nil {
+		return 0
+	}
+	return float64(ru.Utime.Sec+ru.Stime.Sec) + float64(ru.Utime.Usec+ru.Stime.Usec)/1e6
 }
 
 const classesFile = "/verif/mc/props/c19/classes.json"
